@@ -45,7 +45,7 @@ def new_app(front, registerer=None):
     return app, face
 
 
-def deliver(sess, face, wire, timers_now=True):
+def deliver(sess, face, wire, timers_now=True, before_run=None):
     """Hand one packet to the application's receive callback as a transport would and settle.
     Returns the exception that escaped the awaited callback (None if it returned normally)."""
     try:
@@ -62,6 +62,8 @@ def deliver(sess, face, wire, timers_now=True):
         except BaseException as e:  # noqa
             box['exc'] = e
     t = sess.loop.create_task(go())
+    if before_run is not None:
+        before_run()      # something that happens after the packet was queued but before it is processed
     sess.loop.settle(timers_now=timers_now)
     if not t.done():
         box['exc'] = RuntimeError('receive callback did not return within the instant')
